@@ -1879,7 +1879,18 @@ def run_fit_sum(case):
     # (2-site sweeps enlarge a bond only through the local split, i.e. by at most the neighbouring physical dimension
     #  per sweep: a site of dimension 1 blocks the growth from a low-bond guess, so exactness is not claimed there)
     blocked = case["bsz"] == 2 and 1 in terms[0]["x"]["phys"]
-    if case["cap"] == "exact" and not blocked:
+    # (1-site sweeps never change a bond of the guess (bond expansion is only scheduled while the *nominal* dimension is
+    #  below max_bond), and the 'zipup' shorthand derives the guess from the FIRST term alone, whose bonds can be smaller
+    #  than the ranks of the sum: a guess that is too small cannot hold the sum whatever the fit does - a property of the
+    #  documented 'hands-on' guess, not a fit failure. Exactness is then only claimed when every returned bond reaches
+    #  the numerical rank of the dense sum at that cut.)
+    one_site = case["bsz"] in ("auto", 1)
+    too_small = False
+    if one_site and case["guess"] == "zipup" and L >= 2:
+        sv = unfold_svals(site_tensor(ref, terms[0]))
+        ranks = [int(np.sum(x > 1e-10 * max(float(x[0]), 1e-300))) for x in sv]
+        too_small = any(b < r for b, r in zip(bonds, ranks))
+    if case["cap"] == "exact" and not blocked and not too_small:
         e = float(np.linalg.norm(got - want)) / (1.0 if case["normalize"] else mag)
         if not e <= INV64:
             raise Violation("not-exact", err=e, **info)
@@ -1895,7 +1906,7 @@ def run_fit_sum(case):
             raise Violation("not-canonical", defect=d, **info)
         e = max(e, d)
     return {"nt": L >= 3, "cls": ["input=" + terms[0]["kind"], f"terms={len(tns)}", "guess=" + str(case["guess"]), "bsz=" + str(case["bsz"]),
-                                  "cap=" + case["cap"], f"L={L}"], "err": e}
+                                  "cap=" + case["cap"], f"L={L}"] + (["guess-too-small"] if too_small else []), "err": e}
 
 
 # ---------------------------------------------------------------------------
